@@ -37,7 +37,7 @@ pub fn tree_rule(prop: &str) -> &'static str {
 /// Parts (pool, quick sample, thorough sample, cfg rule) for the tree properties.
 pub fn tree_parts(prop: &str, std: &Std) -> Vec<Part> {
     let sweep = workload::sweep_default();
-    let sweep2 = CfgRule::Sweep { tabs: vec![2, 4], reorder: vec![false] };
+    let sweep2 = CfgRule::Grid { tabs: vec![2, 4], reorder: vec![false] };
     let sweep_r = CfgRule::Sweep { tabs: vec![2], reorder: vec![true] };
     let sb = std.small_bases.clone();
     let mut parts = vec![];
